@@ -727,3 +727,17 @@ package astisub
 //@   prop C08 C18 C19
 //@   requires writable(s) && o != nil
 //@ end
+
+// ---- TTML ----
+
+//@ func ReadFromTTML(i io.Reader) (o *Subtitles, err error)
+//@   prop C08 C18
+//@   requires i != nil
+//@ end
+
+//@ func (s Subtitles) WriteToTTML(o io.Writer, opts ...WriteToTTMLOption) (err error)
+//@   prop C08 C18 C19
+//@   requires writable(s) && o != nil
+//@   loop 2: invariant forall m int :: 0 <= m && m < len(k) ==> has(s.Regions, k[m])
+//@   loop 4: invariant forall m int :: 0 <= m && m < len(k) ==> has(s.Styles, k[m])
+//@ end
